@@ -173,6 +173,9 @@ def build_ops(case, model):
         k = op[0]
         if k == 'lang':
             ops += bytes([5]) + struct.pack('<I', op[1]); objs.append(model.for_lang(op[1])); n += 1
+        elif k == 'null':
+            # gr_featureval_clone(NULL): an unbound, empty set -- every feature reads 0 until a successful set binds and grows it
+            ops += bytes([6]) + struct.pack('<H', 0xFFFF); objs.append([0] * len(model.feats)); n += 1
         elif k == 'clone':
             if not objs: continue
             i = op[1] % len(objs)
@@ -316,6 +319,7 @@ def ops_strategy():
     op = st.one_of(
         st.tuples(st.just('lang'), tags).map(list),
         st.tuples(st.just('clone'), st.integers(0, 5)).map(list),
+        st.just(['null']),
         st.tuples(st.just('set'), st.integers(0, 5), st.integers(0, 255), vals).map(list),
         st.tuples(st.just('set'), st.integers(0, 5), st.integers(0, 255), vals).map(list),
         st.tuples(st.just('get'), st.integers(0, 5)).map(list),
